@@ -155,7 +155,10 @@ mod verif_kani_jsonarr {
             }
         }
         kani::cover!(r.is_ok() && min_items == 2 && max_items == Some(3));
-        kani::cover!(r.is_err());
+        // (without prefix items the statements in front of the span already guarantee that minItems can be reached: no Err)
+        if n_prefix > 0 {
+            kani::cover!(r.is_err());
+        }
     }
 
     #[kani::proof]
